@@ -46,7 +46,8 @@ GARBAGE = ["", "garbage", "= = =", "12 34 56", "0 = N 9 0", "0 = S 64 10", "7 = 
 
 def _gen_damage(f: Any, doc: dict[str, Any], victim: int) -> tuple[str, list[str]]:
     kind = f.choice(["garbage", "garbage", "other_body", "foreign_sync", "invalid_forced_first",
-                     "invalid_descending", "empty", "valid_other_content"])
+                     "invalid_descending", "invalid_descending_shared", "empty",
+                     "valid_other_content"])
     if kind == "garbage":
         return kind, [f.choice(GARBAGE) for _ in range(f.randint(1, 8))]
     if kind == "other_body":
@@ -60,6 +61,16 @@ def _gen_damage(f: Any, doc: dict[str, Any], victim: int) -> tuple[str, list[str
         far = doc["tempos"][-1][0] + 10
         return kind, [f"{far} = N 0 0", "0 = N 1 0", f"{far} = E solo", "0 = E soloend",
                       f"{far} = S 2 5", "0 = S 2 5"]
+    if kind == "invalid_descending_shared":
+        # ticks going backwards across the tempo map, where the LOWER ticks are ticks that other
+        # sections of the same file use too (whatever those sections left behind in shared
+        # per-chart state must not decide whether this section is accepted)
+        far = doc["tempos"][-1][0] + 10
+        shared = sorted({gr["tick"] for i, tr in enumerate(doc["tracks"]) if i != victim
+                         for gr in tr[1]} | {t for t, _, _ in doc["events"]})
+        low = [t for t in shared if t < far] or [0]
+        picks = sorted(f.sample(low, min(len(low), f.randint(1, 3))), reverse=True)
+        return kind, [f"{far} = N 0 0"] + [f"{t} = N {f.randint(0, 4)} 0" for t in picks]
     if kind == "empty":
         return kind, []
     tr = gen.gen_track(f, doc["tracks"][victim][0], 17, doc["resolution"],
@@ -120,7 +131,15 @@ def make_plan(seed: int, tier: str, index: int) -> dict[str, Any]:
     for _ in range(n_clients):
         ops = []
         for _ in range(p.randint(3, 7) if n_clients == 1 else p.randint(2, 4)):
-            ops.append({"file": p.choice(["F", "D", "D"]), "select": _gen_selection(p, headers, vname)})
+            op = {"file": p.choice(["F", "D", "D"]), "select": _gen_selection(p, headers, vname)}
+            if op["select"] is not None and f.random() < 0.12:
+                # the caller's selection object fails on its k-th access of any kind with an
+                # ordinary exception: the parse may fail, it must not return anything but the
+                # selected tracks
+                op["sel_fault"] = {"at": f.choice([1, 1, 2, 3, 5, 8]),
+                                   "exc": f.choice(["TypeError", "ValueError", "KeyError",
+                                                    "RuntimeError", "OSError"])}
+            ops.append(op)
         clients.append(ops)
     schedule: dict[str, Any] = {"mode": "sequential", "seed": 0, "p_boundary": 0.0}
     if n_clients > 1:
@@ -128,16 +147,41 @@ def make_plan(seed: int, tier: str, index: int) -> dict[str, Any]:
         if s.random() < 0.35:
             schedule = {"mode": "writes", "seed": s.getrandbits(32), "p": s.choice([0.1, 0.3, 0.6]),
                         "hold": s.choice([20, 200, 1000, 4000])}
+    solo = [sec for sec in dsecs if sec[0] in gen.REQUIRED or sec[0] == vname]
     return {"property": PROP, "seed": seed, "headers": headers, "victim": vname, "damage": dkind,
-            "F": gen.render_sections(secs), "D": gen.render_sections(dsecs), "clients": clients,
-            "schedule": schedule}
+            "F": gen.render_sections(secs), "D": gen.render_sections(dsecs),
+            "S": gen.render_sections(solo), "clients": clients, "schedule": schedule}
 
 
-def _reference_digests(text: str) -> dict[str, Any]:
-    """Unrestricted parse of the undamaged file in a pristine process (forked grandchild)."""
+def _solo_outcome(text: str, victim: str) -> dict[str, Any]:
+    from detsim import world
+
+    try:
+        ch = world.parse_text(text)
+    except Exception as e:  # noqa: BLE001
+        return {"kind": "exc", "type": type(e).__name__}
+    for inst, dd in ch.instrument_tracks.items():
+        for diff, tr in dd.items():
+            if gen.PAIR_TO_HEADER[(inst.name, diff.name)] == victim:
+                return {"kind": "ok", "track": rng.digest(observe_track(tr))}
+    return {"kind": "ok", "track": None}
+
+
+def _reference_digests(text: str, solo_text: str | None = None, victim: str = "") -> dict[str, Any]:
+    """Unrestricted parse of the undamaged file in a pristine process (forked grandchild), and
+    the outcome of the damaged section when it is the only instrument section of its file."""
     from detsim import world
 
     world.install_log_sink()
+    solo = _solo_outcome(solo_text, victim) if solo_text is not None else None
+    out = _reference_digests_inner(text)
+    out["solo"] = solo
+    return out
+
+
+def _reference_digests_inner(text: str) -> dict[str, Any]:
+    from detsim import world
+
     try:
         ref = world.parse_text(text)
     except Exception as e:  # noqa: BLE001
@@ -177,7 +221,7 @@ def execute(plan: dict[str, Any]) -> dict[str, Any]:
     # of the (possibly concurrent) client parses, so lazily initialised process-wide state is
     # exercised cold.  All judging happens after the simulation.
     try:
-        refd = runner.in_fork(_reference_digests, plan["F"], timeout=120)
+        refd = runner.in_fork(_reference_digests, plan["F"], plan.get("S"), victim, timeout=120)
     except runner.ChildFailure as e:
         return {"violations": [], "digest": "", "evals": 1,
                 "harness_error": f"reference computation failed: {e}"}
@@ -206,6 +250,26 @@ def execute(plan: dict[str, Any]) -> dict[str, Any]:
             gen.PAIR_TO_HEADER[tuple(x)] for x in sel["pairs"]} & set(headers)
         victim_selected = damaged and victim in want
         tagp = f"client {ci} op {k} file {op['file']} select {shape}"
+        solo = refd.get("solo")
+        if victim_selected and solo is not None:
+            # the damaged section's OWN outcome must not depend on the other sections of the file:
+            # it equals the outcome when that section is the only instrument section
+            if err is not None:
+                mine: dict[str, Any] = {"kind": "exc", "type": type(err).__name__}
+            else:
+                vt = None
+                for inst, dd in chart.instrument_tracks.items():
+                    for diff, tr in dd.items():
+                        if gen.PAIR_TO_HEADER[(inst.name, diff.name)] == victim:
+                            vt = rng.digest(observe_track(tr))
+                mine = {"kind": "ok", "track": vt}
+            counters["victim_outcome_vs_solo"] = counters.get("victim_outcome_vs_solo", 0) + 1
+            if mine != solo:
+                violations.append({"sig": f"C13/section-outcome-depends-on-others/{shape}/{plan['damage']}",
+                                   "detail": f"{tagp}: section [{victim}] (damage={plan['damage']}) gives {mine} "
+                                             f"in this file but {solo} when it is the only instrument "
+                                             "section of the file"})
+                return
         if err is not None:
             if victim_selected:
                 counters["damaged_selected_raised"] = counters.get("damaged_selected_raised", 0) + 1
@@ -262,13 +326,21 @@ def execute(plan: dict[str, Any]) -> dict[str, Any]:
                 sched.begin_op(client, k)
                 chart = None
                 err: BaseException | None = None
+                sel_rt = op["select"]
+                sf = op.get("sel_fault")
+                if sf and sel_rt is not None:
+                    exc_obj = {"TypeError": TypeError, "ValueError": ValueError, "KeyError": KeyError,
+                               "RuntimeError": RuntimeError, "OSError": OSError}[sf["exc"]](
+                        "injected: the caller's selection object failed")
+                    sel_rt = {**sel_rt, "fault": {"at": sf["at"], "exc_obj": exc_obj}}
                 try:
-                    chart = world.parse_text(plan[op["file"]], op["select"])
+                    chart = world.parse_text(plan[op["file"]], sel_rt)
                 except HarnessError:
                     raise
                 except Exception as e:  # noqa: BLE001
                     err = e
                 mutated = world.selection_was_mutated()
+                sel_fault_fired = bool(sf) and world.selection_fault_fired()
                 sched.end_op(client)
                 n_ops += 1
                 with sched.atomic(client):
@@ -285,7 +357,12 @@ def execute(plan: dict[str, Any]) -> dict[str, Any]:
                             "region_replace:" + plan["damage"], 0) + 1
                     sk = "select:" + _shape(op["select"], headers)
                     counters[sk] = counters.get(sk, 0) + 1
-                    pending.append((ci, k, op, chart, err))
+                    if sel_fault_fired:
+                        fired["selection_object_raises"] = fired.get("selection_object_raises", 0) + 1
+                        if err is not None:
+                            continue  # may fail (relaxed oracle under an injected fault) ...
+                        counters["selection_fault_swallowed"] = counters.get("selection_fault_swallowed", 0) + 1
+                    pending.append((ci, k, op, chart, err))  # ... never wrong data
         return body
 
     harness_error = None
@@ -343,4 +420,9 @@ def shrink(plan: dict[str, Any]):
         if len(ops) > 1:
             for i in range(len(ops)):
                 yield {**plan, "clients": clients[:ci] + [ops[:i] + ops[i + 1:]] + clients[ci + 1:]}
+    for ci, ops in enumerate(clients):
+        for i, op in enumerate(ops):
+            if op.get("sel_fault"):
+                op2 = {a: b for a, b in op.items() if a != "sel_fault"}
+                yield {**plan, "clients": clients[:ci] + [ops[:i] + [op2] + ops[i + 1:]] + clients[ci + 1:]}
     yield from minimize.shrink_schedule(plan)
